@@ -87,6 +87,8 @@ impl<T> ConcurrentVec<T> {
         let _guard = self.write_lock.lock().unwrap();
         let index = self.head.load(Ordering::Acquire);
         self.push_at(item, index, MaybeUninit::uninit);
+        #[cfg(egglog_verif)]
+        crate::verif::perturb(20);
         self.head.store(index + 1, Ordering::Release);
         index
     }
@@ -105,6 +107,8 @@ impl<T> ConcurrentVec<T> {
         }
         // `index` is out of bounds. Need to resize.
         mem::drop(handle);
+        #[cfg(egglog_verif)]
+        crate::verif::perturb(21);
         let mut writer = self.data.lock();
         if index >= writer.len() {
             writer.resize_with((index + 1).next_power_of_two(), &mut init_fn);
